@@ -101,6 +101,27 @@ enum Verdict {
     Either,
 }
 
+/// does the relative path `rel`, walked from directory `dir`, step above the root at some point
+fn climbs_above_root(dir: &str, rel: &str) -> bool {
+    if rel.starts_with('/') {
+        return false;
+    }
+    let mut depth = dir.split('/').filter(|c| !c.is_empty()).count() as i64;
+    for c in rel.split('/') {
+        match c {
+            "" | "." => {},
+            ".." => {
+                depth -= 1;
+                if depth < 0 {
+                    return true;
+                }
+            },
+            _ => depth += 1,
+        }
+    }
+    false
+}
+
 pub fn check_macro(case: &MacroCase) -> CaseResult {
     let backend = if case.stdfs { "stdfs" } else { "memfs" };
     // state
@@ -237,7 +258,16 @@ pub fn check_macro(case: &MacroCase) -> CaseResult {
             "mkfile" => Some(kpost == Some(Kind::File)),
             "write_all" => Some(kpost == Some(Kind::File) && file_text(&post, &a_abs).as_deref() == Some(b)),
             "write_all_bytes" => Some(matches!(post.nodes.get(&a_abs), Some(Node::File { data, .. }) if data == RAW)),
-            "symlink" => Some(kpost == Some(Kind::Link)),
+            // "performs the operation": a new link points where vfs.symlink(link, target) points (a relative
+            // target is relative to the link's directory); an existing link is left as it was
+            "symlink" => {
+                let want = if b.starts_with('/') { abs_plain("/", b).ok() } else { Some(ref_clean(&format!("{}/{}", parent(&a_abs), b))) };
+                match (ka, post.nodes.get(&a_abs), want) {
+                    (None, Some(Node::Link { target, .. }), Some(w)) if !b.is_empty() && !climbs_above_root(&parent(&a_abs), b) => Some(*target == w),
+                    (Some(Kind::Link), Some(n), _) => Some(pre.nodes.get(&a_abs) == Some(n) || case.stdfs),
+                    _ => Some(kpost == Some(Kind::Link)),
+                }
+            },
             "remove" | "remove_all" => Some(kpost.is_none()),
             "copyfile" => match &b_abs {
                 Some(bb) if pre.kind(bb) != Some(Kind::Dir) && ka == Some(Kind::File) => Some(post.kind(bb) == Some(Kind::File) && file_text(&post, bb) == file_text(&pre, &a_abs) && file_text(&pre, &a_abs).is_some()),
@@ -315,7 +345,7 @@ fn setup_spec() -> impl Strategy<Value = OpSpec> {
 }
 
 pub fn run(c: &Ctx) {
-    c.set_rule("states: proptest-generated Memfs states over a 3-name namespace (dirs, files with small contents, links to dirs/files/links/missing targets) built from 2..10 creating calls; for EVERY state: every macro (11 checking, 8 acting; write_all also with a non-UTF-8 payload) x every path of the namespace that exists, a missing child, a missing-parent path and the empty string (pairs: copyfile/symlink with a second path; read_all/write_all with matching and different data; readlink/readlink_abs with the right text, a wrong one and a proper-suffix of the right one), each invocation on a freshly rebuilt state under catch_unwind; Memfs always, a seeded part on a tmpfs Stdfs sandbox materialised with std::fs. Oracle: checking macros panic <=> the reference predicate over the pre-state is false and leave the state alone; acting macros: never 'no panic and postcondition false', never 'panic although postcondition holds'; every panic message names the macro and shows the resolved path. Non-trivial = invocation on an existing entry of another kind than the macro asks for, a link, or a near-miss second argument; distinct by (state, macro, arguments).");
+    c.set_rule("states: proptest-generated Memfs states over a 3-name namespace (dirs, files with small contents, links to dirs/files/links/missing targets) built from 2..10 creating calls; for EVERY state: every macro (11 checking, 8 acting; write_all also with a non-UTF-8 payload) x every path of the namespace that exists, a missing child, a missing-parent path and the empty string (pairs: copyfile/symlink with a second path; read_all/write_all with matching and different data; readlink/readlink_abs with the right text, a wrong one and a proper-suffix of the right one), each invocation on a freshly rebuilt state under catch_unwind; Memfs always, a seeded part on a tmpfs Stdfs sandbox materialised with std::fs. Oracle: checking macros panic <=> the reference predicate over the pre-state is false and leave the state alone; acting macros: never 'no panic and postcondition false', never 'panic although postcondition holds' (symlink: a new link points where vfs.symlink(link, target) points, also for targets relative to the link's directory; an existing link is untouched); every panic message names the macro and shows the resolved path. Non-trivial = invocation on an existing entry of another kind than the macro asks for, a link, or a near-miss second argument; distinct by (state, macro, arguments).");
     c.assume("no_dir!/no_file! on an existing entry of another kind: pass or panic both admitted (docs and code disagree); copyfile! into an existing directory: not asserted");
     let n = c.tier.pick(1500, 20000);
     let cfg = GenCfg { names: NAMES3, avoid_through_link: true, plain_spelling: true, wild: false, handles: false };
@@ -390,6 +420,10 @@ pub fn run(c: &Ctx) {
                     "copyfile" | "symlink" => {
                         bs = paths.iter().filter(|p| !p.is_empty()).take(6).cloned().collect();
                         bs.push("/zz".into());
+                        if *mac == "symlink" {
+                            // relative targets: relative to the link's directory, not to the cwd
+                            bs.extend(["a".to_string(), "../b".to_string(), "./c/a".to_string()]);
+                        }
                     },
                     _ => {},
                 }
